@@ -14,9 +14,9 @@ from harness.util import outcome, bits
 INV = ["EachPairOnce", "MapDomain", "SynergyOwnRow", "ExportCase"]
 
 
-def _consts(model, export, use_cases=False, quick=True):
-    return {"MaxE": 2 if quick else 3, "MaxT": 3 if quick else 4, "Chains": {0, 1} if quick else {0, 1, 2}, "MaxRows": 3 if quick else 4,
-            "Arities": {2} if quick else {2, 3}, "NS": 2, "NT": 2, "Export": export, "UseCases": use_cases, "Model": model}
+def _consts(model, export, use_cases=False, quick=True, rows=None, arities=None):
+    return {"MaxE": 2 if quick else 3, "MaxT": 3 if quick else 4, "Chains": {0, 1} if quick else {0, 1, 2}, "MaxRows": rows or 3,
+            "Arities": arities or {2}, "NS": 2, "NT": 2, "Export": export, "UseCases": use_cases, "Model": model}
 
 
 class ViabTheta(Theta):
@@ -177,9 +177,10 @@ def run(ctx):
     rng = np.random.default_rng(ctx.seed)
     tmp = tempfile.mkdtemp(prefix="verif-c20-")
     try:
-        for model in ("eval", "effect"):
-            r = ctx.tlc("Metrics", tlc.cfg(constants=_consts(model, True, quick=ctx.quick), invariants=INV),
-                        note="%s structures" % model, env={"CASES_FILE": "none"}, workers=1, coverage=True)
+        runs = [("eval", None, None), ("effect", 3, {2})] + ([] if ctx.quick else [("effect", 4, {2}), ("effect", 3, {3})])
+        for model, nrows, ars in runs:
+            r = ctx.tlc("Metrics", tlc.cfg(constants=_consts(model, True, quick=ctx.quick, rows=nrows, arities=ars), invariants=INV),
+                        note="%s structures (rows<=%s, arity %s)" % (model, nrows, ars), env={"CASES_FILE": "none"}, workers=1, coverage=True)
             if r.violation:
                 ctx.violation("design-level: Metrics violates %s" % r.violation, {"kind": "tlc", "tlc": r.violation_text[:3000]})
                 continue
